@@ -95,11 +95,11 @@ _HS_ASSUME = ["an impl block without its own has_storage/has_storage_ref inherit
               "a has_storage body that calls the wrapped source's has_storage* is taken to return that answer (not re-verified beyond the call being present)",
               "z3 4.8.12 and cvc5 1.0 agree; every sat answer is replayed on the real types by the native tool (wrapped source answering true)"]
 PROPS["C20"] = dict(
-    functions=_HS_FUNCS[:3] + ["<CacheDB<ExtDB> as Database>::{storage, block_hash}, <CacheDB<ExtDB> as DatabaseRef>::{storage_ref, block_hash_ref} (read policy)"],
+    functions=_HS_FUNCS[:3] + ["<CacheDB<ExtDB> as Database>::{storage, block_hash, code_by_hash}, <CacheDB<ExtDB> as DatabaseRef>::{storage_ref, block_hash_ref, code_by_hash_ref, basic_ref}, DbAccount::info (read policy)"],
     bounds="the has_storage query through each of the six (layer, trait) pairs, for every answer of the wrapped source (symbolic Bool); "
            "CacheDB storage / block-hash reads: every path of the four MIR bodies x every value of (account cached?, slot cached?, the four account states, "
            "wrapped account exists?) - one step from an arbitrary cache content, so any commit history that produced it is covered",
-    outside="basic / code_by_hash answers of CacheDB, block-hash pruning in State (State::storage, load_cache_account and the CacheAccount status transitions are decided under C15), "
+    outside="Database::basic of CacheDB (its first load builds a DbAccount through a closure; basic_ref and DbAccount::info are decided), block-hash pruning in State (State::storage, load_cache_account and the CacheAccount status transitions are decided under C15), "
             "what DatabaseCommit::commit writes into the cache (hash-map backed: not encodable, see DESIGN §2); &mut T / Box<T> / &T / Arc<T> forwarding is generated by auto_impl and not re-checked",
     assumptions=_HS_ASSUME + ["read policy reference: uncached account -> wrapped database (Database::storage: zero if the wrapped account does not exist); cached slot -> cache; "
                               "uncached slot of a cached account -> zero iff account_state is NotExisting or StorageCleared, else the wrapped database",
